@@ -28,6 +28,7 @@ func init() {
 	commands["pool-c19"] = func(w string) { runPool(w, "C19") }
 	commands["pool-c04"] = func(w string) { runPool(w, "C04") }
 	commands["pool-c20"] = func(w string) { runPool(w, "C20") }
+	commands["pool-c08"] = func(w string) { runPool(w, "C08") }
 }
 
 // ---- in-memory message pipe ----
